@@ -90,7 +90,14 @@ func VerifH03bBasicAuthGate() {
 	httpserver.CaseSensitivePath = sensitive
 	rule := Rule{Username: "u", Password: func(pw string) bool { return pw == "pw" }, Resources: []string{res}, Exclude: excl}
 	next := &zzNext{}
-	a := BasicAuth{Next: next, Rules: []Rule{rule}}
+	rules := []Rule{rule}
+	// optionally a second rule (other credentials) protecting a path nested inside the first rule's exclude
+	res2 := ""
+	if verifrt.Bool("second-rule") {
+		res2 = "/a/b/a"
+		rules = append(rules, Rule{Username: "v", Password: func(pw string) bool { return pw == "pw2" }, Resources: []string{res2}})
+	}
+	a := BasicAuth{Next: next, Rules: rules}
 	method := "GET"
 	if verifrt.Bool("options") {
 		method = "OPTIONS"
@@ -127,10 +134,14 @@ func VerifH03bBasicAuthGate() {
 	if next.ran > 0 && method != "OPTIONS" && creds != 2 {
 		verifrt.Assert(!protected || excluded, "no-content-without-credentials")
 	}
+	if res2 != "" && next.ran > 0 && method != "OPTIONS" {
+		// the request carries at most the first rule's credentials: the second rule's resource stays closed
+		verifrt.Assert(!inside(res2), "exclude-of-one-rule-does-not-open-another")
+	}
 	if next.ran == 0 {
 		verifrt.Assert(status == 401 && len(w.body) == 0, "refusal-is-401-without-body")
 	}
-	if creds == 2 || method == "OPTIONS" {
+	if (creds == 2 && !(res2 != "" && inside(res2))) || method == "OPTIONS" {
 		verifrt.Assert(next.ran == 1 && next.path == p, "served-normally-with-credentials")
 	}
 	verifrt.Assert(next.ran <= 1, "next-runs-once")
